@@ -73,7 +73,8 @@ class Node:
 
 
 class Analysis:
-    def __init__(self, T_out, positive, timeout_ms=20000):
+    def __init__(self, T_out, positive, timeout_ms=20000, signs=None):
+        self.signs = signs or {}
         self.T = T_out
         self.u = F(1, 1 << tm.FPREC[T_out])
         self.positive = positive
@@ -97,7 +98,7 @@ class Analysis:
         kids = [self.memo[a.id] for a in x.args if isinstance(a, T)]
         E = self.real.ev(x) if tm.is_f(ty) else None
         if op == 'arg':
-            s = '+' if self.positive else '?'
+            s = self.signs.get(x.args[0], '+' if self.positive else '?')
             return Node(E, absz(E, s), F(0), s, True)
         if op == 'fc':
             p = x.args[0]
